@@ -12,6 +12,7 @@ set_tally_pool_means):
   (diagnosis)       the CVR-side scores used by the library (overstatement + A_i) must sum to n (v+1)/2; this isolates
                     which side broke when the identity fails.
 """
+import copy
 import math
 import random
 
@@ -29,7 +30,8 @@ REQUIRED = ["identities_checked", "assorter:plurality", "assorter:supermajority"
             "identities_rechecked_after_cvrs_revised_in_place", "population_checked",
             "population_data_compared_with_per_card_values", "pool_dict_restricted_to_audited_contests",
             "null_mean_of_the_configured_test_checked", "elections_with_a_batch_holding_pooled_and_unpooled_cards",
-            "audits_without_style_whose_contest_objects_do_not_carry_the_flag"]
+            "audits_without_style_whose_contest_objects_do_not_carry_the_flag",
+            "elections_where_cards_behind_phantom_cvrs_are_found"]
 ASSUMPTIONS = ["add_pool_contests applied under style (documented precondition of ONEAudit); a batch label may be shared by "
                "pooled and unpooled cards: the batch mean is then over the flagged cards", "A_i is computed by reference assorters written from the definitions "
                "(cross-checked against the real assorters by C02 and C14)"]
@@ -76,6 +78,14 @@ def run_case(es, rec):
         rec.case(es, nontrivial=False, sample=brief(es))
         return
     n_ph = sum(1 for c in sim.cvr_list if c.phantom)
+    if n_ph and len(es["cards"]) % 3 == 0:
+        # some of the cards behind phantom CVRs ARE found (the manifest lists the card, the export had no record of it):
+        # their manual records are real ballots - of any style, so they may or may not list a given contest
+        donors = [cd["votes"] for cd in es["cards"]]
+        for j, i in enumerate(i for i, c in enumerate(sim.cvr_list) if c.phantom):
+            if j % 2 == 0:
+                es["mvrs"][str(i)] = {"kind": "votes", "votes": copy.deepcopy(donors[(i * 7 + j) % len(donors)])}
+        rec.count("elections_where_cards_behind_phantom_cvrs_are_found")
     pooled = sum(1 for c in sim.cvr_list if c.pool)
     pooled_ph = sum(1 for c in sim.cvr_list if c.pool and c.phantom)
     discrep = len(es["mvrs"])
